@@ -262,6 +262,10 @@ def mixed_key(rng):
         return gen.int_key(rng)
     if r < 0.45:
         return gen.adversarial_key(rng)
+    if r < 0.62:
+        # key text that spells a placeholder (no table knows the id): data like any other key, several per level
+        return rng.choice(["LINECOMMENT000001", "LINECOMMENT000002", "LINECOMMENT000003", "BLOCKCOMMENT000001", "BLOCKCOMMENT000002",
+                           "INCLUDE000004", "INCLUDE000005", "xLINECOMMENT000006y", "EXPRESSION000001", "STRINGLITERAL000002"])
     return gen.plain_key(rng)
 
 
@@ -304,6 +308,16 @@ def run(ctx):
         else:
             t = gen.dom_tree(rng, max_nodes=rng.choice([6, 15, 30]), max_depth=rng.choice([2, 4, 6]),
                              int_keys=0.2, leaf=leaf, key=mixed_key if shape >= 3 else None)
+        if si % 8 == 7:
+            # several keys of ONE placeholder kind on one dict level (ids no table knows): key text is data
+            kind = rng.choice(["LINECOMMENT", "BLOCKCOMMENT", "INCLUDE"])
+            inner = {f"{kind}{j:06d}": leaf(rng) for j in rng.sample(range(1, 9), rng.randrange(2, 4))}
+            inner[gen.plain_key(rng)] = leaf(rng)
+            inner = dict(rng.sample(list(inner.items()), len(inner)))
+            holder = rng.choice([t] + [sub for _, sub in gen.all_paths(t) if isinstance(sub, dict)])
+            holder[gen.plain_key(rng) + "_ph"] = inner
+            if rng.random() < 0.5:
+                holder.update({k: v for k, v in list(inner.items())[:2]})
         if gen.tree_depth(t) > 10:
             continue
         paths = list(gen.all_paths(t))
